@@ -11,6 +11,7 @@ use crate::tags::Tags;
 use crate::Program;
 
 use deno_ast::view as ast_view;
+use deno_ast::MediaType;
 use deno_ast::SourcePos;
 use deno_ast::SourceRange;
 use deno_ast::SourceRanged;
@@ -85,17 +86,22 @@ impl NoProcessGlobalHandler {
   }
 
   fn add_diagnostic(&mut self, ctx: &mut Context, range: SourceRange) {
-    let change = self.fix_change(ctx);
+    // An import declaration is a syntax error in a CommonJS file.
+    let fixes = if ctx.media_type() == MediaType::Cjs {
+      vec![]
+    } else {
+      vec![LintFix {
+        description: "Import from \"node:process\"".into(),
+        changes: vec![self.fix_change(ctx)],
+      }]
+    };
 
     ctx.add_diagnostic_with_fixes(
       range,
       CODE,
       MESSAGE,
       Some(String::from("Add `import process from \"node:process\";`")),
-      vec![LintFix {
-        description: "Import from \"node:process\"".into(),
-        changes: vec![change],
-      }],
+      fixes,
     );
   }
 }
@@ -105,13 +111,24 @@ impl Handler for NoProcessGlobalHandler {
     if id.sym() != "process" {
       return;
     }
+    // `<process />` is an intrinsic JSX element name, not a reference.
+    if id.sym().starts_with(|c: char| c.is_ascii_lowercase())
+      && (id.parent().is::<ast_view::JSXOpeningElement>()
+        || id.parent().is::<ast_view::JSXClosingElement>())
+    {
+      return;
+    }
     if id.ctxt() == ctx.unresolved_ctxt() {
       self.add_diagnostic(ctx, id.range());
     }
   }
 
   fn import_decl(&mut self, imp: &ast_view::ImportDecl, _ctx: &mut Context) {
-    self.most_recent_import_range = Some(imp.range());
+    // Only a top level import is a place to put a new import behind: one inside
+    // `declare module "x" { ... }` is not in scope of the rest of the file.
+    if imp.parent().is::<ast_view::Module>() {
+      self.most_recent_import_range = Some(imp.range());
+    }
   }
 }
 
